@@ -10,7 +10,7 @@ open RV RV.Driver RV.Integrate
   keys    pre/wait, each a string over s (space), 1 (arrow-down), 5 (page-down): key presses delivered at boundary k
           before reb_check_exit is entered / while it waits (integrateP)
 
-  tmaxinf 0 | 1 (tmax == +inf) | 2 (the source refuses NaN targets: integrateN true) | 3 (both)
+  tmaxinf bit mask: 1 tmax == +inf, 2 the source refuses NaN targets, 4 the source has the no-progress guard of addb1f3 (integrateG)
   kind    once | halves | janus | adaptive | ias15free (IAS15 controller model without forces, min_dt = dtdone of oracle entry 0)
   mask    bit0 collision, bit1 user, bit2 escape, bit3 encounter, bit4 sigint, bit5 errMsg, bit6 stepError
   answer  outcome t dt dld steps status syncs nbeats (dt0 t1 dt1 dld1 st)*nbeats      (oldest beat first)
@@ -86,8 +86,14 @@ def run (toks : List String) : String :=
             let ctl : Nat → List Ctl × List Ctl := fun k =>
               ((sched.filter (fun e => e.1 == k)).flatMap (fun e => e.2.1),
                (sched.filter (fun e => e.1 == k)).flatMap (fun e => e.2.2))
-            let res := if ctlToks.isEmpty then integrateN (tmaxinf == "2" || tmaxinf == "3") stepFn env fuel s (fl tmax) (tmaxinf == "1" || tmaxinf == "3")
-                       else integrateP stepFn env ctl fuel s (fl tmax) (tmaxinf == "1")
+            -- tmaxinf token: bit0 tmax == +inf, bit1 the source refuses NaN targets, bit2 the source has the no-progress guard of addb1f3
+            let tv := tmaxinf.toNat!
+            let isInf := tv % 2 == 1
+            let nanG := (tv / 2) % 2 == 1
+            let guard3 := (tv / 4) % 2 == 1
+            let res := if !ctlToks.isEmpty then integrateP stepFn env ctl fuel s (fl tmax) isInf
+                       else if guard3 then (integrateG nanG stepFn env fuel s (fl tmax) isInf).1
+                       else integrateN nanG stepFn env fuel s (fl tmax) isInf
             match res with
             | .done s => outStr "done" s
             | .blocked s => outStr "blocked" s
